@@ -115,8 +115,8 @@ def run(ctx):
     from corr import c01
     for n in (0, 1, 2):
         total = 6 + n
-        for part in all_partitions(total):
-            sc = c01.materialise({"api": "send", "op": 2, "lcg": [n, n + 7], "key": "bytes", "accept": list(part)})
+        for pi_, part in enumerate(all_partitions(total)):
+            sc = c01.materialise({"api": "send", "op": 2, "lcg": [n, n + 7], "key": "bytes", "accept": list(part), "dispatcher": bool(pi_ % 2)})
             got = c01.do_send(sc, random.Random(n))
             T.case(("sw", n, tuple(part)), nontrivial=len(part) > 1, bucket="short-writes-exhaustive",
                    sample={"payload_len": n, "accept": list(part)})
@@ -126,10 +126,11 @@ def run(ctx):
                        {"site": "send_frame", "cls": "short-write-loop"})
             elif ctx.spec:
                 c01.judge(sc, got, ctx.spec.run(["decode " + hx(got["wire"])])[0], T)
-    for _ in range(60 if ctx.tier == "quick" else 1500):
+    for j_ in range(60 if ctx.tier == "quick" else 1500):
         n = rng.choice([126, 300, 5000, 70000])
         pat = [rng.choice([1, 2, 7, 100, 4096, 100000]) for _ in range(400)]
-        sc = c01.materialise({"api": "send", "op": 2, "lcg": [n, rng.randrange(999)], "key": "bytes", "accept": pat})
+        # every other case through the dispatcher's send(), the path of all WebSocketApp connections
+        sc = c01.materialise({"api": "send", "op": 2, "lcg": [n, rng.randrange(999)], "key": "bytes", "accept": pat, "dispatcher": bool(j_ % 2)})
         got = c01.do_send(sc, random.Random(n))
         T.case(("swl", n, tuple(pat[:20])), bucket="short-writes-sampled")
         if ctx.spec and n <= 5000:
